@@ -65,8 +65,30 @@ def gen_modgraph(rng, profile=None):
             ex = exports_of[c]
             allnames = {n for cl in usemodel.CLASSES for n in ex[cl]}
             names = sorted(allnames - taken)
-            form = rng.choice(["plain", "plain", "only", "only", "rename", "only+rename", "split", "echo", "only-empty"])
+            form = rng.choice(["plain", "plain", "only", "only", "rename", "only+rename", "split", "echo", "only-empty", "swap"])
             prefix = rng.choice(["", "", "", "non_intrinsic", "::"])
+            if form == "swap":
+                # `only: a => b, b => a` (and the three-name shift written downstream-first): every clause's local
+                # name is another clause's use-name
+                done = False
+                for cl in rng.sample(list(usemodel.CLASSES), len(usemodel.CLASSES)):
+                    cn = sorted(n for n in ex[cl] if n not in taken)
+                    if len(cn) >= 2:
+                        pick = rng.sample(cn, 3 if len(cn) >= 3 and rng.random() < 0.4 else 2)
+                        pairs = [[pick[i], pick[(i + 1) % len(pick)]] for i in range(len(pick))]
+                        if rng.random() < 0.5:
+                            uses.append({"mod": c, "only": pairs, "renames": [], "prefix": prefix})
+                            taken.update(pick)
+                        elif not ((allnames - set(pick)) & taken):
+                            uses.append({"mod": c, "only": None, "renames": pairs, "prefix": prefix})
+                            taken.update(allnames)
+                        else:
+                            continue
+                        done = True
+                        break
+                if done:
+                    continue
+                form = "only"
             if form == "only-empty":
                 if rng.random() < 0.3:
                     uses.append({"mod": c, "only": [], "renames": [], "prefix": prefix})
@@ -152,6 +174,8 @@ def gen_modgraph(rng, profile=None):
                "unknown": []}
         ne = rng.randint(1, pr["max_ents"])
         kinds = KINDS + (["iface"] if pr["inner_uses"] else [])
+        if rng.random() < 0.12:
+            kinds = ["var", "param"]   # a constants-only module: exports no procedure, interface or type
         for j in range(ne):
             kind = rng.choice(kinds)
             ename = "%se%d%s%d" % (px, i, kind[0], j)
@@ -358,6 +382,13 @@ def _doc_inline(e):
     return "" if e.get("undoc") else " !! %s" % e["tr"]
 
 
+def _mix(rng, name, p=0.25):
+    """Fortran names are case-insensitive: spell an occurrence with some letters in upper case"""
+    if rng.random() > p:
+        return name
+    return "".join(ch.upper() if rng.random() < 0.4 else ch for ch in name)
+
+
 def render_module(mod, rng):
     L = ["module %s" % mod["name"], "  !! %s" % mod["tr"]]
     for u in mod["uses"]:
@@ -370,9 +401,9 @@ def render_module(mod, rng):
     stmts = []
     for e in mod["ents"]:
         if e.get("access") and e["form"] == "stmt":
-            stmts.append("  %s :: %s" % (e["access"], e["name"]))
+            stmts.append("  %s :: %s" % (e["access"], _mix(rng, e["name"])))
     if mod.get("pub_imports"):
-        stmts.append("  public :: " + ", ".join(mod["pub_imports"]))
+        stmts.append("  public :: " + ", ".join(_mix(rng, n) for n in mod["pub_imports"]))
     early = [s for s in stmts if rng.random() < 0.5]
     late = [s for s in stmts if s not in early]
     L.extend(early)
@@ -382,12 +413,12 @@ def render_module(mod, rng):
         k = e["kind"]
         if k == "var":
             ty = "type(%s)" % e["vtype"] if e.get("vtype") else "integer"
-            L.append("  %s%s :: %s%s" % (ty, attr, e["name"], _doc_inline(e)))
+            L.append("  %s%s :: %s%s" % (ty, attr, _mix(rng, e["name"]), _doc_inline(e)))
         elif k == "param":
             L.append("  integer, parameter%s :: %s = %d%s" % (attr, e["name"], len(e["name"]), _doc_inline(e)))
         elif k == "type":
             ext = ", extends(%s)" % e["extends"] if e.get("extends") else ""
-            L.append("  type%s%s :: %s" % (attr, ext, e["name"]))
+            L.append("  type%s%s :: %s" % (attr, ext, _mix(rng, e["name"])))
             L.extend(_doc_line(e, "    "))
             L.append("    integer :: c_%s" % e["name"])
             if e.get("comp_type"):
